@@ -218,7 +218,8 @@ func init() {
 		"Structural necessary conditions of 'no protobuf-decodable request can crash a node', decided for all message shapes at once: every slice→array conversion in the wire-facing packages "+
 			"is dominated by a length test on the same access path (directly, through a validator's ensures-summary, or established by every caller), every dereference through an optional "+
 			"sub-message pointer is dominated by a nil test, constant/len-relative slice bounds are covered by length facts, and in every handler no signature/challenge validation is reachable "+
-			"after a call with ledger / awaiting-cache / peer-table effects. Panics unrelated to message shape, resource exhaustion and library internals are not decided.",
+			"after a call with ledger / awaiting-cache / peer-table effects; every operation on a mutex-guarded map table of a request-serving struct (peer table, webhook table, aliases followed) "+
+			"has the mutex in its must-hold lockset (an unsynchronised map access that overlaps a write aborts the process). Panics unrelated to message shape, resource exhaustion and library internals are not decided.",
 		runC15)
 }
 
